@@ -15,6 +15,18 @@ impl<T: Qcow2IoOps> Qcow2Dev<T> {
         self.file.read_to(offset, buf).await
     }
 
+    /// Read meta data.  A table or slice may reach beyond what has been
+    /// written of the file so far: that part reads as zeros (no entries), it
+    /// must not be left as whatever the (uninitialised) buffer held.
+    pub(crate) async fn call_read_meta(&self, offset: u64, buf: &mut [u8]) -> Qcow2Result<usize> {
+        let done = self.call_read(offset, buf).await?;
+
+        if done < buf.len() {
+            buf[done..].fill(0);
+        }
+        Ok(buf.len())
+    }
+
     #[inline]
     pub(crate) async fn call_write(&self, offset: u64, buf: &[u8]) -> Qcow2Result<()> {
         log::trace!("write_from off {:x} len {}", offset, buf.len());
@@ -89,7 +101,7 @@ impl<T: Qcow2IoOps> Qcow2Dev<T> {
 
         t.set_offset(Some(off));
         let buf = unsafe { std::slice::from_raw_parts_mut(t.as_mut_ptr(), t.byte_size()) };
-        self.call_read(off, buf).await
+        self.call_read_meta(off, buf).await
     }
 
     pub(crate) async fn load_refcount_table(&self) -> Qcow2Result<usize> {
